@@ -122,6 +122,74 @@ func C19(c *core.Ctx) {
 		}
 		checkUnmarshal(c, p.SSAFn(m), tab.typ, p.Field(pkgReport, tab.typ, "Flags"), tab.minLen, tab.width)
 	}
+	// R3: the decoders are the only place where the raw octets of these IEs are interpreted: wherever own code
+	// takes the payload of an Apply Action / Reporting Triggers IE, it goes to the decoder of that IE and
+	// nowhere else (a second, ad-hoc decode - e.g. Uint16 of a 3-octet field - makes two paths disagree)
+	for _, u := range []struct{ accessor, typ string }{{"ApplyAction", "ApplyAction"}, {"ReportingTriggers", "ReportingTrigger"}} {
+		acc := p.Method(core.PkgIE, "IE", u.accessor)
+		dec := p.Method(pkgReport, u.typ, "Unmarshal")
+		if acc == nil || dec == nil {
+			c.Anchor("R3", "ie.IE."+u.accessor+" / report."+u.typ+".Unmarshal")
+			continue
+		}
+		n := 0
+		for _, fn := range p.OwnFuncs() {
+			k := 0
+			for _, ci := range core.Calls(fn, acc) {
+				n++
+				k++
+				v := ci.Value()
+				good, why := true, ""
+				var raw []ssa.Value
+				if v != nil {
+					for _, r := range *v.Referrers() {
+						if ex, ok := r.(*ssa.Extract); ok && ex.Index == 0 {
+							raw = append(raw, ex)
+						}
+					}
+				}
+				seen := map[ssa.Value]bool{}
+				for len(raw) > 0 {
+					x := raw[len(raw)-1]
+					raw = raw[:len(raw)-1]
+					if seen[x] {
+						continue
+					}
+					seen[x] = true
+					for _, r := range *x.Referrers() {
+						switch y := r.(type) {
+						case *ssa.DebugRef:
+						case *ssa.Phi:
+							raw = append(raw, y)
+						case *ssa.Store: // spilled to a local variable: follow its loads
+							if al, ok := y.Addr.(*ssa.Alloc); ok {
+								for _, r2 := range *al.Referrers() {
+									if ld, ok := r2.(*ssa.UnOp); ok {
+										raw = append(raw, ld)
+									}
+								}
+							} else {
+								good, why = false, "the payload is stored away"
+							}
+						case ssa.CallInstruction:
+							if core.Callee(y) == dec {
+								continue
+							}
+							if bi, ok := y.Common().Value.(*ssa.Builtin); ok && bi.Name() == "len" {
+								continue
+							}
+							good, why = false, "the payload is also handed to "+fmt.Sprint(y.Common().Value)
+						default:
+							good, why = false, fmt.Sprintf("the payload is also used by %T", r)
+						}
+					}
+				}
+				c.Check("R3", fmt.Sprintf("sole-decoder:%s:%s#%d", u.accessor, core.FnName(fn), k), ci.Pos(), good,
+					"the octets of the "+u.accessor+" IE are interpreted by report."+u.typ+".Unmarshal only "+why)
+			}
+		}
+		c.Floor("R3", n, 2, "uses of the raw "+u.accessor+" payload")
+	}
 	// R3 encoders
 	for _, e := range []struct{ typ, ctor string }{{"ReportingTrigger", "NewReportingTriggers"}, {"UsageReportTrigger", "NewUsageReportTrigger"}} {
 		m := p.Method(pkgReport, e.typ, "IE")
